@@ -133,7 +133,7 @@ Qed.
    Object 1 carries a finalizer, object 2 does not; both are tracked and owned.  The destroyer deletes
    both; the API server accepts both requests, object 2 disappears, object 1 is only marked as
    terminating and stays, annotations and all. *)
-Definition fin_univ : list uinfo := [mkU KNs None None; mkUF KPlain None None true; mkU KPlain None None].
+Definition fin_univ : list uinfo := [mkU KNs None None; mkUF KPlain None None true true; mkU KPlain None None].
 Definition fin_c0 : cluster :=
   mkCl [mkC 1 5%N OOurs false [] false 1 None; mkC 2 6%N OOurs false [] false 1 None] (Some [1; 2]) 9%N.
 Definition fin_opts (destroy ptimeout : bool) : opts :=
